@@ -279,6 +279,94 @@ let run_case (toks : sx list) : string =
       (match M.dec t M.bufr_ops r0 with
        | M.Ok (v, r) -> Printf.sprintf "st=0 val=%s consumed=%s" (string_of_val v) (string_of_n r.M.br_idx)
        | M.Err (e, _) -> Printf.sprintf "st=%s" (string_of_n e))
+  (* rseq KIND LIMIT FK FC HEX CALLS : primitive read calls on a reader model *)
+  | [A "rseq"; A kind; A limit; A fk; A fc; A hex; A calls] ->
+      let calls = if calls = "-" then [] else String.split_on_char ',' calls in
+      let bytes = bytes_of_hex hex in
+      let show ((code, bs) : M.n * M.n list) = if code = M.N0 then (if bs = [] then "0" else "0:" ^ hex_of_bytes bs) else string_of_n code in
+      let parse_call c : M.rcall option =
+        match c.[0] with
+        | 'E' -> Some (M.RcEnsure (n_of_string (String.sub c 1 (String.length c - 1))))
+        | 'r' -> Some M.RcRead1
+        | 'S' -> Some (M.RcSkip (n_of_string (String.sub c 1 (String.length c - 1))))
+        | 'R' -> let x = String.index c 'x' in
+                 let w = n_of_string (String.sub c 1 (x - 1)) and n = n_of_string (String.sub c (x + 1) (String.length c - x - 1)) in
+                 Some (M.RcReadN (M.N.mul w n))
+        | _ -> None in
+      let run (type r) (o : r M.rops) (pad : (r -> (unit, r) M.res) option) (st : r) : string list * r =
+        List.fold_left (fun (acc, st) c ->
+            match parse_call c with
+            | Some rc -> let (x, st') = M.run_rcall o rc st in
+                         (* a zero-byte typed read still reports its (empty) payload *)
+                         let s = (match rc, x with M.RcReadN _, (code, []) when code = M.N0 -> "0:-" | M.RcRead1, _ | M.RcReadN _, _ -> show x | _, (code, _) -> string_of_n code) in
+                         (acc @ [s], st')
+            | None -> (match pad with
+                       | Some p when c = "P" -> (match p st with M.Ok ((), st') -> (acc @ ["0"], st') | M.Err (e, st') -> (acc @ [string_of_n e], st'))
+                       | _ -> (acc @ ["?"], st))) ([], st) calls in
+      let res l = if l = [] then "-" else String.concat "," l in
+      let lim = n_of_string limit in
+      (match kind with
+       | "inst" ->
+           let (l, st) = run (M.inst_rops M.lr_ops) None (M.inst_make bytes (fault_of fk fc)) in
+           Printf.sprintf "res=%s pos=%d inner=%s" (res l) (List.length bytes - List.length st.M.i_inner) (pr_log st.M.i_log)
+       | "binst" ->
+           let o = M.inst_rops M.lr_ops in
+           let (l, st) = run (M.bounded_rops o) (Some (M.bounded_read_padding o)) (M.b_make (M.inst_make bytes (fault_of fk fc)) lim) in
+           let inner = M.b_inner st in
+           Printf.sprintf "res=%s used=%s pos=%d inner=%s" (res l) (string_of_n (M.b_index st)) (List.length bytes - List.length inner.M.i_inner) (pr_log inner.M.i_log)
+       | "buf" | "ped" ->
+           let (l, st) = run M.bufr_ops None { M.br_buf = bytes; M.br_idx = M.N0 } in
+           Printf.sprintf "res=%s pos=%s" (res l) (string_of_n st.M.br_idx)
+       | "bbuf" | "bped" ->
+           let (l, st) = run (M.bounded_rops M.bufr_ops) (Some (M.bounded_read_padding M.bufr_ops)) (M.b_make { M.br_buf = bytes; M.br_idx = M.N0 } lim) in
+           Printf.sprintf "res=%s used=%s pos=%s" (res l) (string_of_n (M.b_index st)) (string_of_n (M.b_inner st).M.br_idx)
+       | _ ->
+           let (l, _) = run M.lr_ops None bytes in
+           Printf.sprintf "res=%s" (res l))
+  (* wseq KIND CAP LIMIT FK FC CALLS : primitive write calls on a writer model *)
+  | [A "wseq"; A kind; A cap; A limit; A fk; A fc; A calls] ->
+      let calls = if calls = "-" then [] else String.split_on_char ',' calls in
+      let parse_call c : M.wcall option =
+        match c.[0] with
+        | 'P' -> Some (M.WcPrepare (n_of_string (String.sub c 1 (String.length c - 1))))
+        | 'w' -> Some (M.WcWrite1 (n_of_string (String.sub c 1 (String.length c - 1))))
+        | 'K' -> let x = String.index c ':' in
+                 Some (M.WcSkip (n_of_string (String.sub c 1 (x - 1)), n_of_string (String.sub c (x + 1) (String.length c - x - 1))))
+        | 'W' -> let x = String.index c 'x' in
+                 let h = String.sub c (x + 1) (String.length c - x - 1) in
+                 Some (M.WcWriteN (bytes_of_hex (if h = "" then "-" else h)))
+        | _ -> None in
+      let run (type w) (o : w M.wops) (pad : (M.n -> w -> (unit, w) M.res) option) (st : w) : string list * w =
+        List.fold_left (fun (acc, st) c ->
+            match parse_call c with
+            | Some wc -> let (code, st') = M.run_wcall o wc st in (acc @ [string_of_n code], st')
+            | None -> (match pad with
+                       | Some p when c.[0] = 'D' ->
+                           let v = if String.length c > 1 then n_of_string (String.sub c 1 (String.length c - 1)) else M.N0 in
+                           (match p v st with M.Ok ((), st') -> (acc @ ["0"], st') | M.Err (e, st') -> (acc @ [string_of_n e], st'))
+                       | _ -> (acc @ ["?"], st))) ([], st) calls in
+      let res l = if l = [] then "-" else String.concat "," l in
+      let lim = n_of_string limit in
+      let bw0 = { M.bw_out = []; M.bw_cap = n_of_string cap; M.bw_oob = false } in
+      (match kind with
+       | "inst" ->
+           let (l, st) = run (M.inst_wops M.lw_ops) None (M.inst_make [] (fault_of fk fc)) in
+           Printf.sprintf "res=%s bytes=%s inner=%s" (res l) (hex_of_bytes st.M.i_inner) (pr_log st.M.i_log)
+       | "binst" ->
+           let o = M.inst_wops M.lw_ops in
+           let (l, st) = run (M.bounded_wops o) (Some (M.bounded_write_padding o)) (M.b_make (M.inst_make [] (fault_of fk fc)) lim) in
+           let inner = M.b_inner st in
+           Printf.sprintf "res=%s used=%s bytes=%s inner=%s" (res l) (string_of_n (M.b_index st)) (hex_of_bytes inner.M.i_inner) (pr_log inner.M.i_log)
+       | "buf" | "ped" | "cx" ->
+           let (l, st) = run (M.bufw_ops (kind <> "buf")) None bw0 in
+           Printf.sprintf "res=%s bytes=%s oob=%b" (res l) (hex_of_bytes st.M.bw_out) st.M.bw_oob
+       | "bbuf" | "bped" ->
+           let o = M.bufw_ops (kind <> "bbuf") in
+           let (l, st) = run (M.bounded_wops o) (Some (M.bounded_write_padding o)) (M.b_make bw0 lim) in
+           Printf.sprintf "res=%s used=%s bytes=%s oob=%b" (res l) (string_of_n (M.b_index st)) (hex_of_bytes (M.b_inner st).M.bw_out) (M.b_inner st).M.bw_oob
+       | _ ->
+           let (l, st) = run M.lw_ops None [] in
+           Printf.sprintf "res=%s bytes=%s" (res l) (hex_of_bytes st))
   (* fungrow T: model IsFungible<T, Tj> for every pool type Tj in pool order *)
   | [A "fungrow"; A tid] ->
       let t = ty_named tid in
